@@ -359,7 +359,11 @@ func (w *world) leaf() *QN {
 		return q
 	case 14, 15:
 		t := w.termFor(f)
-		return &QN{K: "prefix", F: f, T: t[:r.Range(0, len(t))]}
+		lo := 0
+		if w.steer && w.engine == "upsidedown" {
+			lo = 1 // the empty prefix on upsidedown is generated separately (class prefix-empty-upsidedown)
+		}
+		return &QN{K: "prefix", F: f, T: t[:r.Range(lo, len(t))]}
 	case 16, 17:
 		pats := []string{"a*", "*b", "a?", "?b*", "*", "a*c", "??", "*a*", "ab?", "?", "c*b", "x*", "a?c*"}
 		return &QN{K: "wildcard", F: f, T: vrand.Pick(r, pats)}
@@ -494,9 +498,12 @@ func (w *world) min2(n int) int {
 	return 2 * (n + 1) // rejected by Validate
 }
 
-func (w *world) tree(d int) *QN {
+func (w *world) tree(d int) *QN { return w.treeP(d, 3) }
+
+// treeP: a random tree of depth <= d; leafPct/10 is the chance that the root is a leaf
+func (w *world) treeP(d int, leafPct int) *QN {
 	r := w.r
-	if d <= 0 || r.Chance(3, 10) {
+	if d <= 0 || r.Chance(leafPct, 10) {
 		return w.leaf()
 	}
 	switch r.Intn(10) {
@@ -562,7 +569,11 @@ func gen(f vh.Flags, r *vrand.R, emit func(In)) {
 		batches := w.history()
 		emitted := 0
 		for try := 0; emitted < 5 && try < 40; try++ {
-			q := w.tree(r.Range(1, 4))
+			leafPct := 0
+			if try%5 == 4 {
+				leafPct = 10 // a bare leaf now and then
+			}
+			q := w.treeP(r.Range(1, 4), leafPct)
 			if q.size() > 45 || !validate(q) {
 				continue
 			}
@@ -570,20 +581,37 @@ func gen(f vh.Flags, r *vrand.R, emit func(In)) {
 			emitted++
 		}
 	}
-	// 2. the two signature classes, as separate small cases
+	// 2. the signature classes, as separate small directed cases
 	nMS := f.N(24, 600)
 	for i := 0; i < nMS; i++ {
 		engine := engines[i%len(engines)]
 		w := newWorld(r.Fork(), engine, r.Range(3, 6))
 		w.steer = false
 		w.vocab = w.vocab[:4]
-		term := func() *QN { return &QN{K: "term", F: "k", T: w.word()} }
-		b := &QN{K: "boolean", HasMust: true, HasShould: true, Min2: 2}
-		b.Must = []*QN{term()}
-		for j := w.r.Range(1, 3); j > 0; j-- {
-			b.Should = append(b.Should, term())
+		term := func(t string) *QN { return &QN{K: "term", F: "k", T: t} }
+		// documents 0 and 1 satisfy the must clause; 0 satisfies no should clause
+		var docs [][]Op
+		for id := 0; id < w.nDocs; id++ {
+			d := &Doc{KArr: true}
+			switch id {
+			case 0:
+				d.K = []string{w.vocab[0]}
+			case 1:
+				d.K = []string{w.vocab[0], w.vocab[1]}
+			default:
+				for j := w.r.Range(1, 2); j > 0; j-- {
+					d.K = append(d.K, w.word())
+				}
+			}
+			docs = append(docs, []Op{{ID: id, Doc: d}})
 		}
-		if w.r.Chance(1, 4) {
+		b := &QN{K: "boolean", HasMust: true, HasShould: true, Min2: 2}
+		b.Must = []*QN{term(w.vocab[0])}
+		b.Should = []*QN{term(w.vocab[1]), term(w.vocab[2])}
+		if w.r.Chance(1, 3) {
+			b.Should = append(b.Should, term(w.vocab[3]))
+		}
+		if w.r.Chance(1, 5) {
 			b.Min2 = 2 * len(b.Should)
 		}
 		q := b
@@ -592,14 +620,6 @@ func gen(f vh.Flags, r *vrand.R, emit func(In)) {
 			q = &QN{K: "boolean", HasMust: true, Must: []*QN{{K: "all"}}, Filter: b}
 		case 1:
 			q = &QN{K: "conj", Kids: []*QN{b, {K: "all"}}}
-		}
-		var docs [][]Op
-		for id := 0; id < w.nDocs; id++ {
-			d := &Doc{KArr: true}
-			for j := w.r.Range(1, 2); j > 0; j-- {
-				d.K = append(d.K, w.word())
-			}
-			docs = append(docs, []Op{{ID: id, Doc: d}})
 		}
 		if validate(q) {
 			emit(In{Kind: "minshould", Engine: engine, Batches: docs, Q: q})
@@ -611,16 +631,60 @@ func gen(f vh.Flags, r *vrand.R, emit func(In)) {
 		if i%4 == 3 {
 			engine = "scorch-mem"
 		}
-		w := newWorld(r.Fork(), engine, r.Range(3, 6))
+		w := newWorld(r.Fork(), engine, 0)
 		w.steer = false
+		w.nDocs = len(w.vocab)
 		var docs [][]Op
-		for id := 0; id < w.nDocs; id++ {
-			docs = append(docs, []Op{{ID: id, Doc: &Doc{K: []string{w.word()}}}})
+		for id, t := range w.vocab {
+			docs = append(docs, []Op{{ID: id, Doc: &Doc{K: []string{t}}}})
 		}
-		q := &QN{K: "regexp", F: "k", Rx: w.regex(w.r.Range(1, 3), false)}
+		lit := func(s string) *RX {
+			x := &RX{Op: "chr", C: s[:1]}
+			for _, c := range s[1:] {
+				x = &RX{Op: "cat", A: x, B: &RX{Op: "chr", C: string(c)}}
+			}
+			return x
+		}
+		var rx *RX
+		word := w.word()
+		for len(word) < 2 {
+			word = w.word()
+		}
+		cut := w.r.Range(1, len(word)-1)
+		switch w.r.Intn(5) {
+		case 0: // prefix|word : the leftmost-first match of "word" is the shorter alternative
+			rx = &RX{Op: "alt", A: lit(word[:cut]), B: lit(word)}
+		case 1: // head(short|long)
+			rx = &RX{Op: "cat", A: lit(word[:cut]), B: &RX{Op: "alt", A: &RX{Op: "opt", A: &RX{Op: "any"}}, B: lit(word[cut:])}}
+		case 2:
+			rx = &RX{Op: "cat", A: &RX{Op: "alt", A: lit(word[:cut]), B: lit(word)}, B: &RX{Op: "opt", A: w.regex(1, false)}}
+		default:
+			rx = w.regex(w.r.Range(2, 4), false)
+		}
+		q := &QN{K: "regexp", F: "k", Rx: rx}
 		if validate(q) {
 			emit(In{Kind: "regexp", Engine: engine, Batches: docs, Q: q})
 		}
+	}
+	nPE := f.N(6, 100)
+	for i := 0; i < nPE; i++ {
+		w := newWorld(r.Fork(), "upsidedown", r.Range(2, 4))
+		w.steer = false
+		var docs [][]Op
+		for id := 0; id < w.nDocs; id++ {
+			d := &Doc{}
+			if id > 0 {
+				d.K = []string{w.word()}
+			} else {
+				d.B = []bool{true}
+			}
+			docs = append(docs, []Op{{ID: id, Doc: d}})
+		}
+		var q *QN = &QN{K: "prefix", F: "k", T: ""}
+		if i%2 == 1 {
+			q = &QN{K: "boolean", HasMustNot: true, MustNot: []*QN{q}}
+		}
+		emit(In{Kind: "prefix-empty", Engine: "upsidedown", Batches: docs, Q: q})
 	}
 	// 3. thorough: every query tree of depth <= 2 over 3 leaves (nodes with at most 2 children,
 	// at most one of them compound) on a few small corpora
@@ -933,6 +997,8 @@ func run(in In) vh.Result {
 		class = "minshould-score-none"
 	} else if in.Engine == "upsidedown" && in.Q.any(unsafeRegexp) {
 		class = "regexp-leftmost-first"
+	} else if in.Engine == "upsidedown" && in.Q.any(func(q *QN) bool { return q.K == "prefix" && q.T == "" }) {
+		class = "prefix-empty-upsidedown"
 	}
 	segs := ""
 	if sm, ok := idx.StatsMap()["index"].(map[string]interface{}); ok {
